@@ -11,9 +11,13 @@ R_none == << >>
 NoIv == << >>
 \* a continuing route for g="1" with its own (shorter) timers in front of a catch-all:
 \* alerts with g="1" live in two groups, the others in one
-R_cont == << [rk |-> "{}/{g=\"1\"}", sel |-> "G1", cont |-> TRUE, recv |-> "r1", gby |-> "all", gw |-> 0, gi |-> 2, ri |-> 3, mute |-> NoIv, active |-> NoIv],
-             [rk |-> "{}/{alertname=~\".+\"}", sel |-> "ALL", cont |-> FALSE, recv |-> "r1", gby |-> "none", gw |-> 1, gi |-> 3, ri |-> 4, mute |-> NoIv, active |-> NoIv] >>
+R_cont == << [parent |-> 0, rk |-> "{}/{g=\"1\"}", sel |-> "G1", cont |-> TRUE, recv |-> "r1", gby |-> "all", gw |-> 0, gi |-> 2, ri |-> 3, mute |-> NoIv, active |-> NoIv],
+             [parent |-> 0, rk |-> "{}/{alertname=~\".+\"}", sel |-> "ALL", cont |-> FALSE, recv |-> "r1", gby |-> "none", gw |-> 1, gi |-> 3, ri |-> 4, mute |-> NoIv, active |-> NoIv] >>
 \* first match wins: critical alerts leave the root
-R_first == << [rk |-> "{}/{sev=\"crit\"}", sel |-> "CRIT", cont |-> FALSE, recv |-> "r1", gby |-> "g", gw |-> 2, gi |-> 2, ri |-> 4, mute |-> NoIv, active |-> NoIv] >>
+\* a nested tree: g="1" (own timers, continue) with a child for a="x" that inherits them; catch-all after it
+R_nest == << [parent |-> 0, rk |-> "{}/{g=\"1\"}", sel |-> "G1", cont |-> TRUE, recv |-> "r1", gby |-> "g", gw |-> 0, gi |-> 2, ri |-> 3, mute |-> NoIv, active |-> NoIv],
+             [parent |-> 1, rk |-> "{}/{g=\"1\"}/{a=\"x\"}", sel |-> "AX", cont |-> FALSE, recv |-> "", gby |-> "none", gw |-> 0 - 1, gi |-> 0 - 1, ri |-> 0 - 1, mute |-> NoIv, active |-> NoIv],
+             [parent |-> 0, rk |-> "{}/{alertname=~\".+\"}", sel |-> "ALL", cont |-> FALSE, recv |-> "", gby |-> "", gw |-> 1, gi |-> 3, ri |-> 4, mute |-> NoIv, active |-> NoIv] >>
+R_first == << [parent |-> 0, rk |-> "{}/{sev=\"crit\"}", sel |-> "CRIT", cont |-> FALSE, recv |-> "r1", gby |-> "g", gw |-> 2, gi |-> 2, ri |-> 4, mute |-> NoIv, active |-> NoIv] >>
 \* observation-only variables are hidden: none here (the monitor state is part of the judgement)
 =============================================================================
